@@ -26,7 +26,7 @@ package ast
 //@ cellinv H_ast_While_Body v: nodeOK(v)
 //@ cellinv H_ast_ForStmt_Condition v: nodeOK(v)
 //@ cellinv H_ast_ForStmt_Increment v: optNode(v)
-//@ cellinv H_ast_ForStmt_Initializer v: optNode(v)
+//@ cellinv H_ast_ForStmt_Initializer v: optNode(v) && (v == nil || isVarStmt(v) || isVarListStmt(v) || isExpressionStatement(v))
 //@ cellinv H_ast_ForStmt_Body v: nodeOK(v)
 //@ cellinv H_ast_ArrayAssignment_Array v: nodeOK(v)
 //@ cellinv H_ast_ArrayAssignment_Index v: nodeOK(v)
